@@ -131,12 +131,29 @@ def nsFreeChain (fs : Fs) : Path → List Str → Bool
 def NoNamespaceDirs (roots : List Path) (fs : Fs) (comps : List Str) : Bool :=
   roots.all (fun r => nsFreeChain fs r comps)
 
-/-- at most one candidate for `c` in directory `d`: the files `c<suffix>` and the package `c/__init__.py` -/
-def clashFreeAt (sfx : List Str) (fs : Fs) (d : Path) (c : Str) : Bool :=
-  (sfx.filter (fun s => fs.exists (d ++ [c ++ s]))).length + (if fs.exists (d ++ [c, INIT_PY]) then 1 else 0) ≤ 1
+/-- no module FILE `c<suffix>` next to a package DIRECTORY `c/__init__.py` in directory `d` -/
+def pkgClashFreeAt (sfx : List Str) (fs : Fs) (d : Path) (c : Str) : Bool :=
+  !(fs.exists (d ++ [c, INIT_PY]) && sfx.any (fun s => fs.exists (d ++ [c ++ s])))
 
 def NoModulePackageClash (roots : List Path) (sfx : List Str) (fs : Fs) (comps : List Str) : Bool :=
-  roots.all (fun r => atLeaf (clashFreeAt sfx fs) r comps)
+  roots.all (fun r => atLeaf (pkgClashFreeAt sfx fs) r comps)
+
+/-- no extension-suffix file `c<ext>` next to a source/bytecode file `c<nonext>` in directory `d`
+    (`nonext` = source + bytecode suffixes, `ext` = extension suffixes): the recorded finding
+    C07-extension-next-to-source is exactly the negation of this -/
+def extFreeAt (nonext ext : List Str) (fs : Fs) (d : Path) (c : Str) : Bool :=
+  !(nonext.any (fun s => fs.exists (d ++ [c ++ s])) && ext.any (fun s => fs.exists (d ++ [c ++ s])))
+
+def NoExtensionNextToSource (roots : List Path) (nonext ext : List Str) (fs : Fs) (comps : List Str) : Bool :=
+  roots.all (fun r => atLeaf (extFreeAt nonext ext fs) r comps)
+
+/-- what the proof needs from the previous predicate: supp's suffix order and FileFinder's order select
+    the same module file of `c` in `d` -/
+def sameChoiceAt (sfx lsfx : List Str) (fs : Fs) (d : Path) (c : Str) : Bool :=
+  sfx.find? (fun s => fs.exists (d ++ [c ++ s])) == lsfx.find? (fun s => fs.exists (d ++ [c ++ s]))
+
+def SameChoice (roots : List Path) (sfx lsfx : List Str) (fs : Fs) (comps : List Str) : Bool :=
+  roots.all (fun r => atLeaf (sameChoiceAt sfx lsfx fs) r comps)
 
 /-- the candidates are regular files (no directory called `c.py`) and a leaf package is a SOURCE package
     (no `__init__.so` / `__init__.pyc`, which importlib would prefer to / accept without `__init__.py`) -/
